@@ -71,3 +71,62 @@ Example C04_bool_nonvacuous :
   load_many (src_env ascii_only) TBOOL [70; 97; 108; 115; 101; 32; 49]%N = Some [VBool false; VBool true].
 Proof. vm_compute. split; [right; right; left; reflexivity | reflexivity]. Qed.
 Print Assumptions C04_bool_nonvacuous.
+
+(* the same through NUMBER (delimited: followed by nothing, or by a character that is not a word
+   character, a digit or '.'): STRICTFLOAT matches no part of the integer, INT takes all of it *)
+Theorem C04_number_int_roundtrip : forall u (z : Z) pre rest,
+  delimited (src_env u) rest ->
+  bt_match (src_env u) TNUMBER pre (dec_text z ++ rest) = Some (TINT, length (dec_text z))
+  /\ convert TINT (dec_text z) = VInt z.
+Proof. exact number_int_roundtrip. Qed.
+Print Assumptions C04_number_int_roundtrip.
+
+(* ---- FLOAT / STRICTFLOAT / NUMBER.  Every literal  sign? (digits '.' digits* | '.' digits+ | digits+) exponent?
+   that has a '.' or an exponent, followed by a delimiter, is matched IN FULL by FLOAT, by STRICTFLOAT and by
+   NUMBER (which takes it as STRICTFLOAT); the processor is float() applied to exactly that text
+   (float() itself is an oracle: convert keeps the literal). *)
+Theorem C04_float_extent : forall u so m eo pre rest,
+  mant_ok m = true -> exp_ok eo = true -> is_float_form m eo = true -> delimited (src_env u) rest ->
+  bt_match (src_env u) TFLOAT pre (float_chars so m eo ++ rest) = Some (TFLOAT, length (float_chars so m eo))
+  /\ bt_match (src_env u) TSTRICTFLOAT pre (float_chars so m eo ++ rest) = Some (TSTRICTFLOAT, length (float_chars so m eo))
+  /\ bt_match (src_env u) TNUMBER pre (float_chars so m eo ++ rest) = Some (TSTRICTFLOAT, length (float_chars so m eo)).
+Proof. exact float_extent. Qed.
+Print Assumptions C04_float_extent.
+
+Example C04_float_nonvacuous :
+  let lit := float_chars (Some false) (MDot [49; 50]%N [53]%N) (Some (false, Some false, [48; 55]%N)) in
+  mant_ok (MDot [49; 50]%N [53]%N) = true /\ lit = [45; 49; 50; 46; 53; 101; 45; 48; 55]%N /\
+  load_many (src_env ascii_only) TNUMBER (lit ++ [32; 51; 32; 46; 53; 32; 49; 101; 51])%N
+  = Some [VFloat lit; VInt 3; VFloat [46; 53]%N; VFloat [49; 101; 51]%N].
+Proof. vm_compute. repeat split; reflexivity. Qed.
+Print Assumptions C04_float_nonvacuous.
+
+(* NUMBER never splits a literal: on sign? digits+ (any sign, leading zeros allowed) STRICTFLOAT has no match
+   at all and INT takes the whole literal; with C04_float_extent: the alternative taken is STRICTFLOAT exactly
+   for the literals with '.' or exponent and INT otherwise, always for the whole literal *)
+Theorem C04_number_choice : forall u so ds pre rest,
+  ds <> [] -> all_digits ds = true -> delimited (src_env u) rest ->
+  rx_match (src_env u) rx_STRICTFLOAT pre ((sign_chars so ++ ds) ++ rest) = None
+  /\ bt_match (src_env u) TNUMBER pre ((sign_chars so ++ ds) ++ rest) = Some (TINT, length (sign_chars so ++ ds)).
+Proof. exact number_int_choice. Qed.
+Print Assumptions C04_number_choice.
+
+(* FLOAT takes a plain integer literal in full as well *)
+Theorem C04_float_on_int : forall u so ds pre rest,
+  ds <> [] -> all_digits ds = true -> delimited (src_env u) rest ->
+  bt_match (src_env u) TFLOAT pre ((sign_chars so ++ ds) ++ rest) = Some (TFLOAT, length (sign_chars so ++ ds)).
+Proof. exact float_on_int. Qed.
+Print Assumptions C04_float_on_int.
+
+(* the delimiter hypothesis is needed: "1.5x" is not a FLOAT at all, and NUMBER reads "1" from "1.x5" *)
+Example C04_delimiter_needed :
+  bt_match (src_env ascii_only) TFLOAT [] [49; 46; 53; 120]%N = None /\
+  bt_match (src_env ascii_only) TNUMBER [] [49; 46; 120; 53]%N = Some (TINT, 1%nat).
+Proof. vm_compute. split; reflexivity. Qed.
+Print Assumptions C04_delimiter_needed.
+
+(* NOT PROVED (kept visible): the instance of the loading-loop theorem for sequences of numbers,
+     forall items separated by non-empty whitespace, load_many (src_env u) TNUMBER (text items) = Some (values items);
+   the loop lemma (BaseTypesProofs.load_seq) is generic and is instantiated for STRING above; for numbers the
+   per-literal theorems above hold at every position with every delimited continuation, and whitespace is a
+   delimiter (BaseTypesProofs.is_ws_delimited); sequences of numbers are covered by the correspondence runs. *)
